@@ -102,8 +102,11 @@ def run(ctx: Ctx) -> None:
     from ..tables import t15_isolation
     t15_isolation.run(ctx)
     t15_isolation.run_transforms(ctx)
+    t15_isolation.run_transformer_accessors(ctx)
     with ctx.parallel():
         t15_isolation.run_copy_evaluation(ctx)
+        t15_isolation.run_evaluation_pure(ctx)
+    ctx.floor("T15.evaluation-pure", 18)
     ctx.floor("T15.copy-evaluation", 14)
 
 
@@ -144,6 +147,8 @@ def mutants(prog):
         ("pyramid: in-place flag setter on the image's own grids", "deepali.data.image", "ImageBatch.pyramid", "grids = tuple((grid.align_corners(align_corners) for grid in self._grid))", "grids = tuple((grid.align_corners_(align_corners) for grid in self._grid))", "T15.accessor"),
         ("isotropic scaling: in-place reciprocal of the shared parameter", "deepali.spatial.linear", "IsotropicScaling.tensor", "scales = 1 / scales", "scales = scales.reciprocal_()", "T15.copy-evaluation"),
         ("translation: offset negated in place", "deepali.spatial.linear", "Translation.tensor", "offset = -offset", "offset = offset.neg_()", "T15.copy-evaluation"),
+        ("multilevel: matrices summed into the first member's tensor", "deepali.spatial.composite", "MultiLevelTransform.tensor", "mat = mat + as_homogeneous_matrix(transform.tensor())", "mat += as_homogeneous_matrix(transform.tensor())", "T15.evaluation-pure"),
+        ("transformer.condition: conditions the shared transform", "deepali.spatial.transformer", "SpatialTransformer.condition", "copy._transform = self._transform.condition(*args, **kwargs)\n        return copy", "return copy.condition_(*args, **kwargs)", "T15.transform-accessor"),
     ]
     for name, mod, fn, old, new, expect in specs:
         ov = source_sub(prog, mod, fn, old, new)
